@@ -346,7 +346,7 @@ pub fn c13(ctx: &Ctx) -> Report {
             if fs > 100.9 && t > 0.06 && !(thorough && fs == 1000.0) {
                 continue;
             }
-            for (a, b) in [(0.0f32, 1.0f32), (1.0, 0.0), (0.0, 10.0), (-1.0, 1.0), (5.0, 5.083_333_5), (0.25, 0.75), (0.0, 1.0e-10), (0.0, -1.0e-13), (1.0e-30, 3.0e-30), (0.0, 1.0e10), (-2.5e3, 1.0e3)] {
+            for (a, b) in [(0.0f32, 1.0f32), (1.0, 0.0), (0.0, 10.0), (-1.0, 1.0), (5.0, 5.083_333_5), (0.25, 0.75), (0.0, 1.0e-10), (0.0, -1.0e-13), (1.0e-30, 3.0e-30), (0.0, 1.0e10), (-2.5e3, 1.0e3), (0.0, 1.0e36), (-2.5e37, 1.0e37)] {
                 jobs.push((fs, t, a, b, None));
             }
             if t <= 0.5 || fs <= 100.9 {
@@ -490,7 +490,7 @@ fn settle_and_step(g: &mut GlideProcessor, fs: f32, t_settle: f32, a: f32, b: f3
 
 pub fn c14(ctx: &Ctx) -> Report {
     let mut rep = Report::new();
-    rep.rule.push("(a) E2 over the plane: 12 sample rates (3 non-integer) x a geometric grid of times (x1.5 quick, x1.13 thorough) from 100/fs to 10 s (plus 20, 100, 1e6 s compared with 10 s, and the sub-2-sample times 0, -0, 0.1/fs, 1/fs, 1.9/fs) x 9 steps (incl. steps that are a tiny fraction of the level they sit on), plus every 7th (thorough: every) integer sample rate and a fractional neighbour of each x 3 times from rest, the first call on a fresh processor being judged with the dead-band rule too (a fresh processor is on the setting time 0 selects): the real processor is settled, stepped, and the fraction covered after t and t/10 seconds is compared with the statement's bounds (+- the f32 allowance); (b) E1: all set_time schedules of length <= 4 over a 9-time menu and creeping ramps, at 8 kHz and at 100 Hz: the measured step response must satisfy the criterion for a time the 0.05 s dead-band rule allows to be in effect; (c) E1, differential: chains of 2-3 set_time calls (14 base times 0..10 s x 22 signed offsets 0.02..3 s, both orders) at 3 (thorough 6) sample rates: the step response must equal, within 1e-6, that of a processor set directly to a time the rule allows to be in effect; non-trivial = step responses measured with >= 100 samples per t".into());
+    rep.rule.push("(a) E2 over the plane: 12 sample rates (3 non-integer) x a geometric grid of times (x1.5 quick, x1.13 thorough) from 100/fs to 10 s (plus 20, 100, 1e6 s compared with 10 s, and the sub-2-sample times 0, -0, 0.1/fs, 1/fs, 1.9/fs) x 9 steps (incl. steps that are a tiny fraction of the level they sit on), plus every 7th (thorough: every) integer sample rate and a fractional neighbour of each x 3 times from rest, the first call on a fresh processor being judged with the dead-band rule too (a fresh processor is on the setting time 0 selects): the real processor is settled, stepped, and the fraction covered after t and t/10 seconds is compared with the statement's bounds (+- the f32 allowance); (b) E1: all set_time schedules of length <= 4 over a 9-time menu and creeping ramps, at 8 kHz and at 100 Hz: the measured step response must satisfy the criterion for a time the 0.05 s dead-band rule allows to be in effect; (c) E1, differential: chains of 2-3 set_time calls (15 base times 0..10 s incl. -0.0 x 28 signed offsets 0.02..3 s, three of them just outside the dead band, both orders) at 3 (thorough 6) sample rates: the step response must equal, within 1e-6, that of a processor set directly to a time the rule allows to be in effect; non-trivial = step responses measured with >= 100 samples per t".into());
     let thorough = ctx.tier.is_thorough();
     let rates: [f32; 12] = [100.0, 441.0, 1000.0, 8000.0, 44100.0, 48000.0, 22050.0, 12345.0, 250.0, 100.9, 999.5, 44117.647];
     let steps: [(f32, f32); 9] = [(0.0, 1.0), (1.0, 0.0), (0.0, 10.0), (-1.0, 1.0), (0.25, 0.75), (5.0, 5.083_333_5), (100.0, 100.05), (-50.0, -50.02), (1.0e-3, 1.0e-3 + 1.0e-7)];
@@ -747,8 +747,8 @@ pub fn c14(ctx: &Ctx) -> Report {
     // of a reference processor for one of the times the dead-band rule allows to be in effect; the reference is
     // brought to time e by a request that is at least 5 s away from e (always honoured) followed by e.
     {
-        let bases: [f32; 14] = [0.0, 0.03, 0.1, 0.2, 0.3, 0.5, 1.0, 2.0, 3.0, 5.0, 7.0, 9.0, 9.9, 10.0];
-        let deltas: [f32; 11] = [0.02, 0.04, 0.06, 0.08, 0.11, 0.15, 0.21, 0.3, 0.5, 1.0, 3.0];
+        let bases: [f32; 15] = [0.0, -0.0, 0.03, 0.1, 0.2, 0.3, 0.5, 1.0, 2.0, 3.0, 5.0, 7.0, 9.0, 9.9, 10.0];
+        let deltas: [f32; 14] = [0.02, 0.04, 0.0502, 0.0509, 0.0515, 0.06, 0.08, 0.11, 0.15, 0.21, 0.3, 0.5, 1.0, 3.0];
         let mut chains: Vec<Vec<f32>> = Vec::new();
         for b in bases {
             for d in deltas {
